@@ -278,7 +278,7 @@ func runC05(p *core.Program, r *core.Report) {
 	r.Rule("C05.countlink", "repetitions are driven by the count the reference expects", 9)
 	r.Rule("C05.frame", "makeData: Short(type)+body, then WriteHeader(10,0,pcode,Hash64Str(license in effect)) from a fresh option struct; WriteHeader = Byte Byte Long Long IntBytes(prev)", 6)
 	r.Rule("C05.encodings", "variable-length decimal classes (tag k + k big-endian bytes, shortest class) and blob/text length classes (<=253 / 255+u16 / 254+i32) are the protocol's", 20)
-	r.Rule("C05.taghash", "a log-sink pack that changes its own tag map invalidates the cached tag hash on every path that changed it (the hash written in front of the tags is the hash of those tags)", 1)
+	r.Rule("C05.taghash", "a log-sink pack that changes its own tag map invalidates the cached tag hash on every path that changed it, and Write emits the hash in force after its lazy recomputation (the hash written in front of the tags is the hash of those tags)", 2)
 	r.Rule("C05.crc", "Hash64 is the table-driven CRC variant: init all-ones, step (acc>>8)^sext32(T[(acc^b)&0xff]), final complement; table = IEEE CRC-32", 259)
 
 	var pairs []codecPair
@@ -308,7 +308,7 @@ func runC05(p *core.Program, r *core.Report) {
 	runPairs(p, x, r, pairs, pairRules{"C05.bodies", "C05.fields", "C05.countlink"}, 6)
 
 	c05Frame(p, r, "C05.frame", false)
-	c05TagHash(p, r)
+	c05TagHash(p, r, "C05.taghash")
 	// the variable-length encodings the bodies are made of (same rules as C01, reported under C05:
 	// a changed length class changes the bytes of every pack that carries such a field)
 	c01Decimal(p, r, &bits.Interp{P: p}, "C05.encodings")
@@ -602,10 +602,10 @@ func c05Frame(p *core.Program, r *core.Report, rule string, optsOnly bool) {
 // is 0). Every method of the pack that puts into / removes from Tags must reset TagHash (or recompute
 // it) after the last such change on every feasible path; flags set on the way (changed = true) are
 // tracked, so `if changed { TagHash = 0 }` is fine exactly when every changing branch sets the flag.
-func c05TagHash(p *core.Program, r *core.Report) {
+func c05TagHash(p *core.Program, r *core.Report, rule string) {
 	t := namedIn(p, "lang/pack", "LogSinkPack")
 	if t == nil {
-		r.Undec("C05.taghash", "lang/pack.LogSinkPack", "-", "type not found")
+		r.Undec(rule, "lang/pack.LogSinkPack", "-", "type not found")
 		return
 	}
 	n := 0
@@ -662,7 +662,7 @@ func c05TagHash(p *core.Program, r *core.Report) {
 		c := core.FuncName(fi.Obj)
 		pos := p.Pos(fi.Decl.Pos())
 		if over {
-			r.Undec("C05.taghash", c, pos, "too many paths")
+			r.Undec(rule, c, pos, "too many paths")
 			continue
 		}
 		bad := ""
@@ -684,10 +684,71 @@ func c05TagHash(p *core.Program, r *core.Report) {
 				bad = "the tag map is changed (" + pa[li].Arg + ") on a path that leaves the cached TagHash as it was: the next Write emits the old hash in front of the new tags: " + pa.String()
 			}
 		}
-		r.Check(bad == "", "C05.taghash", c, pos, "TagHash reset after the last change of Tags on every path", bad)
+		r.Check(bad == "", rule, c, pos, "TagHash reset after the last change of Tags on every path", bad)
 	}
 	if n == 0 {
-		r.Undec("C05.taghash", "lang/pack.LogSinkPack", "-", "no method changes the tag map")
+		r.Undec(rule, "lang/pack.LogSinkPack", "-", "no method changes the tag map")
+	}
+	// Write: where the hash is recomputed lazily, the hash put on the wire must be the recomputed one
+	// (the WriteDecimal of TagHash comes after ResetTagHash on that path), not the stale 0
+	if w := p.Method("lang/pack", "LogSinkPack", "Write"); w != nil && w.Decl.Body != nil {
+		info := w.Pkg.TypesInfo
+		rn := recvName(w)
+		norm := func(e ast.Expr) string { return strings.ReplaceAll(stripSpaces(types.ExprString(e)), rn+".", "") }
+		ps, over := paths.Enumerate(w.Decl.Body, paths.Config{Info: info,
+			Cond: func(c ast.Expr, v bool) *paths.Event {
+				return &paths.Event{Kind: "COND", Arg: condKey(info, norm, c, v), Pos: c.Pos()}
+			},
+			Classify: func(m ast.Node) []paths.Event {
+				var out []paths.Event
+				ast.Inspect(m, func(k ast.Node) bool {
+					call, ok := k.(*ast.CallExpr)
+					if !ok {
+						return true
+					}
+					sel, ok := call.Fun.(*ast.SelectorExpr)
+					if !ok {
+						return true
+					}
+					// inner calls first (arguments are evaluated before the call)
+					for _, a := range call.Args {
+						ast.Inspect(a, func(q ast.Node) bool {
+							if ic, ok := q.(*ast.CallExpr); ok {
+								if is, ok := ic.Fun.(*ast.SelectorExpr); ok && is.Sel.Name == "ResetTagHash" {
+									out = append(out, paths.Event{Kind: "HASHRESET", Pos: ic.Pos()})
+								}
+							}
+							return true
+						})
+					}
+					if sel.Sel.Name == "ResetTagHash" {
+						out = append(out, paths.Event{Kind: "HASHRESET", Pos: call.Pos()})
+						return false
+					}
+					if strings.HasPrefix(sel.Sel.Name, "Write") && len(call.Args) == 1 && norm(call.Args[0]) == "TagHash" {
+						out = append(out, paths.Event{Kind: "WRITEHASH", Pos: call.Pos()})
+					}
+					return true
+				})
+				return out
+			}})
+		c := core.FuncName(w.Obj) + " hash before tags"
+		pos := p.Pos(w.Decl.Pos())
+		if over {
+			r.Undec(rule, c, pos, "too many paths")
+		} else {
+			bad := ""
+			for _, pa := range ps {
+				ri, wi := pa.Index("HASHRESET"), pa.Index("WRITEHASH")
+				if ri >= 0 && wi >= 0 && wi < ri && bad == "" {
+					bad = "on the path that recomputes the tag hash, the hash is written before it is recomputed: the first encoding carries the stale value (0) in front of the tags"
+				}
+				if wi < 0 && bad == "" {
+					bad = "a path of Write does not emit the tag hash"
+				}
+			}
+			r.Check(bad == "", rule, c, pos, "the hash written is the one in force after lazy recomputation", bad)
+		}
 	}
 }
 
